@@ -20,6 +20,7 @@ package yang
 
 import (
 	"fmt"
+	"sort"
 	"sync"
 )
 
@@ -379,6 +380,16 @@ func (ms *Modules) Process() []error {
 	for _, m := range ms.SubModules {
 		mods = append(mods, m)
 	}
+	// The maps are walked in random order. Apply the augments of the
+	// modules in a fixed order, so that the outcome of conflicting augments
+	// (and the wording of the error about them) does not change from run to
+	// run.
+	sort.SliceStable(mods, func(i, j int) bool {
+		if mods[i].Kind() != mods[j].Kind() {
+			return mods[i].Kind() < mods[j].Kind()
+		}
+		return mods[i].FullName() < mods[j].FullName()
+	})
 	for len(mods) > 0 {
 		var processed int
 		for i := 0; i < len(mods); {
@@ -428,7 +439,15 @@ func (ms *Modules) Process() []error {
 	// an entry does not exist.
 	dvP := map[string]bool{} // cache the modules we've handled since we have both modname and modname@revision-date
 	for _, devmods := range []map[string]*Module{ms.Modules, ms.SubModules} {
-		for _, m := range devmods {
+		// Likewise apply the deviations of different modules in a fixed
+		// order.
+		names := make([]string, 0, len(devmods))
+		for name := range devmods {
+			names = append(names, name)
+		}
+		sort.Strings(names)
+		for _, name := range names {
+			m := devmods[name]
 			e := ToEntry(m)
 			if !dvP[e.Name] {
 				errs = append(errs, e.ApplyDeviate(ms.ParseOptions.DeviateOptions)...)
